@@ -12,7 +12,7 @@
      - a multi-valued field (MS kind: slices of sigs / derivations / tap fields, the four
        pre-image maps, xpubs, scalars): s_lists[i] holds (key data, value) pairs in slice
        order (for the Go maps: in any listing order; they are written in key order).
-   The model follows /repo after the fix: commits c50dc2e 78a1990 1bba04e 221cf1d 08af252.
+   The model follows /repo after the fix: commits c50dc2e 78a1990 1bba04e 221cf1d 08af252 2b1b006 39b15af.
    ProprietaryData and Unknowns are the two remaining lists of every struct.
    Every guard of the deserialize switches (duplicate tests, length tests, external
    validators) and every emission guard of getKeyPairs is a function of the field kind.
@@ -153,8 +153,8 @@ Record slot := mk_slot { sl_ekey : keyid; sl_dkey : keyid; sl_k : slotk }.
 
 Definition nonemptyb {A} (l : list A) : bool := match l with [] => false | _ => true end.
 
-(* readBip32Derivation accepts: len % 4 == 0 && len/4 - 1 >= 1 *)
-Definition bip32_ok (v : bytes) : bool := (Nat.modulo (length v) 4 =? 0)%nat && (8 <=? length v)%nat.
+(* readBip32Derivation accepts: len % 4 == 0 && len/4 - 1 >= 0 (a fingerprint and any path, also empty) *)
+Definition bip32_ok (v : bytes) : bool := (Nat.modulo (length v) 4 =? 0)%nat && (4 <=? length v)%nat.
 
 (* copy(hash[:], keyData): zero-padded / truncated to the array length *)
 Definition fixlen (n : nat) (kd : bytes) : bytes := firstn n (kd ++ repeat x00 n).
@@ -169,7 +169,7 @@ Definition has_key (k : bytes) (l : list mentry) : bool := existsb (fun e => byt
 
 (* readTxOut (utils.go) followed by writeTxOut: the canonical bytes of the parsed output *)
 Definition read_txout (v : bytes) : option bytes :=
-  if (length v <? 45)%nat then None else
+  if (length v <? 44)%nat then None else
   match p_asset v with
   | None => None
   | Some (a, r1) =>
@@ -258,7 +258,7 @@ Definition m_step (m : mkind) (kd v : bytes) (l : list mentry) : cres (list ment
   | MMap n => ROk (map_put (fixlen n kd) v l)
   | MTapScriptSig =>
       if (length kd =? 64)%nat then
-        if existsb (fun e => bytes_eqb (firstn 32 (fst e)) (firstn 32 kd)) l then RErr
+        if has_key kd l then RErr    (* same x-only key AND same leaf hash *)
         else if (length v =? 64)%nat || (length v =? 65)%nat then ROk (l ++ [(kd, v)]) else RErr
       else RErr
   | MTapLeaf =>
